@@ -153,21 +153,21 @@ func Create(s *CreateSpec) ([]byte, string) {
 
 // OpSpec describes an update / recover / deactivate request with optional tampering.
 type OpSpec struct {
-	Type       string // update | recover | deactivate
-	Suffix     string
-	SignKey    *Key // signs the JWS
-	PayloadKey *Key // key embedded in the signed data (default SignKey)
-	RevealKey  *Key // key whose reveal value is sent (default PayloadKey)
-	Nonce      string
-	NextUpdate string // delta.updateCommitment (update, recover)
-	NextRecov  string // signed recoveryCommitment (recover)
-	Patches    []interface{}
-	From       int64
-	Until      int64
-	Code       uint
-	Origin     interface{} // recover anchorOrigin
-	SignedSuffix string    // deactivate: suffix inside the signed data (default Suffix)
-	DeltaHash    string    // override of signed delta hash
+	Type         string // update | recover | deactivate
+	Suffix       string
+	SignKey      *Key // signs the JWS
+	PayloadKey   *Key // key embedded in the signed data (default SignKey)
+	RevealKey    *Key // key whose reveal value is sent (default PayloadKey)
+	Nonce        string
+	NextUpdate   string // delta.updateCommitment (update, recover)
+	NextRecov    string // signed recoveryCommitment (recover)
+	Patches      []interface{}
+	From         int64
+	Until        int64
+	Code         uint
+	Origin       interface{} // recover anchorOrigin
+	SignedSuffix string      // deactivate: suffix inside the signed data (default Suffix)
+	DeltaHash    string      // override of signed delta hash
 	DeltaRaw     interface{} // override of the request's delta member
 	NoDelta      bool
 	RevealRaw    string // override of reveal value string
